@@ -597,6 +597,7 @@ Fixpoint update_task_state_fuel (fuel : nat) (t : string) (route : nat) (evt : e
                                (state_ctx w) in
                  retry_task <- try_catch
                                  (if status_in (wstatus w) ACTIVE_STATUSES
+                                     && tbl_transition_valid task_table new_status S_RETRYING
                                   then evaluate_task_retry r current_ctx else ret false)
                                  (fun x => log_error x (Some t) (Some route) None ;;;
                                            request_status_core S_FAILED ;;; ret false) ;;
